@@ -73,7 +73,17 @@ func runC04(c *Ctx) {
 		fn := "package-level"
 		if tl.Fn != nil {
 			fn = FuncName(tl.Fn)
-			lookupFns[tl.Fn] = true
+			// the table may be held by the lookup itself or by a helper that only returns the
+			// sequence for a reason: then the functions calling that helper are the lookups
+			if res := tl.Fn.Signature.Results(); res.Len() == 1 && strings.HasPrefix(res.At(0).Type().String(), "[]") && len(tl.Fn.Params) < 2 {
+				for _, cs := range p.Callers(tl.Fn) {
+					if cs.Kind == "static" {
+						lookupFns[cs.Caller] = true
+					}
+				}
+			} else {
+				lookupFns[tl.Fn] = true
+			}
 		}
 		reason := "unconditional"
 		if tl.InDefault {
@@ -256,6 +266,18 @@ func runC04(c *Ctx) {
 				if t.Op == "const" && t.Name == "true" {
 					ok := HasFact(lf.Facts, FCmp("==", MField("FinalisingStep"), MConst(val[tEnd]))) ||
 						HasFact(lf.Facts, FNil(MOr(MField("CanaryStatus"), MField("BlueGreenStatus"))))
+					if !ok {
+						// the comparison may be made on the value that has just been stored into the cursor
+						for _, st := range StoresToField(fn, func(fa *ssa.FieldAddr) bool { n, _ := FieldOf(fa); return n == "FinalisingStep" }) {
+							stored := TermOf(st.Val).String()
+							if r, _ := CanReach(PointAfter(st), func(in ssa.Instruction) bool { return in == ssa.Instruction(ret) }, ReachOpts{}); !r {
+								continue
+							}
+							if HasFact(lf.Facts, FCmp("==", func(x *Term) bool { return x.String() == stored }, MConst(val[tEnd]))) {
+								ok = true
+							}
+						}
+					}
 					c.Ob("R4.3a", FuncName(fn)+"#return(done)", ret.Pos(), ok, "finalising reports done only at END (or when nothing was started)",
 						ifs(!ok, "return true without FinalisingStep == END")).WithFacts(lf.Facts)
 				} else if t.Op != "const" {
